@@ -18,10 +18,10 @@ def run(tier, seed, ev):
                          lambda ob: ix.REPLAY_INJ if getattr(ob, "kind", None) else [("src/lib.rs", "replay_api.rs", "verif_replay_api")],
                          lambda ob: "replay_index_step" if getattr(ob, "kind", None) else "replay_reclaim")
         import sprop
-        plans = [(("put", "remove"), 1, 2)] + ([(("put", "put"), 1, 2), (("remove", "remove"), 2, 2)] if tier == "thorough" else [])
+        plans = [(("put", "remove"), 1, 2), (("put", "put"), 1, 2)] + ([(("remove", "remove"), 2, 2)] if tier == "thorough" else [])
         rc = max(rc, sprop.run_s(PROP, tier, seed, ev, ex, plans, final_exact=True), key=lambda x: (x == 1, x))
         ix.fill_evidence(ev, U, HU, mir_s, ex)
-        ev.bounds["error-free schedules"] = "every interleaving of put||remove (thorough: put||put, remove||remove) from an exact store (no orphans): at the end cas/ holds exactly the referenced contents"
+        ev.bounds["error-free schedules"] = "every interleaving of put||remove and put||put on one key (thorough: remove||remove) from an exact store (no orphans): at the end cas/ holds exactly the referenced contents"
         ev.functions += ["index::manager::Index::<K>::{apply_put_op,apply_remove_op}", "cas_manager::CasManager::{commit_blob,delete_blobs}",
                          "transaction::Transaction::<K>::commit"]
         ev.bounds["quiescence"] = "pending_intents empty, no fault; key/hash universe 2; num_ops_per_wal=2"
